@@ -353,4 +353,43 @@ theorem bboxLabeledSpec_eq (shape : List Nat) (labels : List Int) (n : Nat)
     rw [a, b]
   · rw [c2 hps]
 
+/-! ### borders / bwperim on arrays with an empty axis -/
+
+theorem shapeSize_zero_of_mem : ∀ (shape : List Nat), 0 ∈ shape → shapeSize shape = 0 := by
+  intro shape
+  induction shape with
+  | nil => intro h; simp at h
+  | cons d ds ih =>
+    intro h
+    simp only [shapeSize]
+    rcases List.mem_cons.mp h with e | h
+    · rw [← e]; simp
+    · rw [ih h]; simp
+
+/-- a full array has all axes non-empty or no pixel at all -/
+theorem pos_or_nil_of_full (shape : List Nat) (labels : List Int) (hlen : labels.length = shapeSize shape) :
+    (∀ d ∈ shape, 0 < d) ∨ labels = [] := by
+  by_cases h : 0 ∈ shape
+  · right
+    rw [shapeSize_zero_of_mem shape h] at hlen
+    exact List.eq_nil_of_length_eq_zero hlen
+  · left
+    intro d hd
+    by_contra c
+    have : d = 0 := by omega
+    subst this
+    exact h hd
+
+theorem bordersSpec_eq (m : Mode) (shape : List Nat) (labels : List Int) (offs : List (List Int))
+    (hs : (∀ d ∈ shape, 0 < d) ∨ labels = []) : bordersSpec m shape labels offs = bordersModel m shape labels offs := by
+  rcases hs with hs | rfl
+  · exact (bordersModel_eq_spec m shape labels offs hs).symm
+  · rfl
+
+theorem bwperimSpec_eq (m : Mode) (shape : List Nat) (bw : List Int) (offs : List (List Int))
+    (hs : (∀ d ∈ shape, 0 < d) ∨ bw = []) : bwperimSpec m shape bw offs = bwperim m shape bw offs := by
+  rcases hs with hs | rfl
+  · exact (bwperim_eq_spec m shape bw offs hs).symm
+  · rfl
+
 end Mahotas.C13
